@@ -134,10 +134,10 @@ func fixedLimitLiterals() []string {
 func init() {
 	oddLiterals = append(oddLiterals, fixedLimitLiterals()...)
 	oddLiterals = append(oddLiterals, "0", "1", "-1", "2", "0.5", "9223372036854775807", "9223372036854775808", "18446744073709551615", "18446744073709551616",
-		"4294967295", "4294967296", "2147483647", "2147483648", "65535", "65536", "255", "256", "0.0001", "0.00001", "0.00005", "0.00004999", "99999999", "100000001")
+		"1e-15", "1e-10", "1e-12", "3e-9", "1e-7", "4294967295", "4294967296", "2147483647", "2147483648", "65535", "65536", "255", "256", "0.0001", "0.00001", "0.00005", "0.00004999", "99999999", "100000001")
 }
 
-var litTemplates = []string{"# + #", "# - #", "# * #", "# / #", "# % #", "# ^ 2", "# < #", "# >= #", "# + 0.0001", "# - 0.0001", "# * 2", "# / 0.5", "# * -1",
+var litTemplates = []string{"log1p(#)", "log1p(#) + 0", "log1p(-#)", "# + #", "# - #", "# * #", "# / #", "# % #", "# ^ 2", "# < #", "# >= #", "# + 0.0001", "# - 0.0001", "# * 2", "# / 0.5", "# * -1",
 	"max(#, #)", "min(#, #)", "round(#)", "floor(#)", "ceil(#)", "abs(#) - #", "round(# / 3)", "floor(# * 0.5)", "ceil(-#)", "floor(-#)", "round(-# - 0.5)",
 	"0 * -1 + #", "1 / (0 * -1)", "min(0, 0 * -1)", "(0 * -1) == 0", "# - # == 0", "-# + #", "# + 0", "# * 1", "0 + #", "1 * #", "-#", "- # + 0", "abs(#)", "max(#, 0)", "min(#, #)", "max(0 + #, 1)", "# == #", "# < #", "# >= #",
 	"if(#, 1, 2)", "if(1, #, 2) * 1", "sqrt(#)", "floor(#)", "# - 0", "# / 1", "1 * # + 0", "(#) * 1", "#", "$x * #", "# + # - #", "abs(max(#, #))", "!#", "# && 1", "# ^ 1", "# % 7"}
